@@ -55,6 +55,9 @@ def col_role(e):
 
 def run(ctx, col, tier):
     repo = ctx.repo
+    from ..rules import sortedness as _sortedness
+    _sortedness.run(ctx, col, ('swcgeom.core.swc_utils.normalizer', 'swcgeom.core.swc_utils.base', 'swcgeom.core.swc_utils.io', 'swcgeom.core.tree_utils'))
+    col.guard(reset_before_sort, ctx, col)
     from ..rules import stateless as _stateless_memo
     _stateless_memo.run_memo(ctx, col)
     col.rule("R-UNIF", "the row permutation is applied to the container's whole key set, every "
@@ -226,3 +229,33 @@ def counter_rule(ctx, col):
                 early = [x for x in ast.walk(w) if isinstance(x, (ast.Break, ast.Continue, ast.Return))]
                 col.check(not early, R, q, d.loc(early[0]) if early else d.loc(w), "every popped frame gets a slot: no early exit / skip in the loop", "",
                           f"`{norm_src(early[0]) if early else ''}` skips or ends the renumbering loop", stmt="loop-exit", definite=True)
+
+
+
+def reset_before_sort(ctx, col):
+    """Re-basing the ids (subtracting the first root's id from every id and parent id) must not run before the renumbering: a node whose parent
+    carries the id `root id - 1` gets parent -1, the 'no parent' marker, so the table handed to the sort has a second root (the sort asserts a
+    single root, or -- if it did not -- would detach that subtree).  The renumbering makes ids 0..n-1 anyway."""
+    col.rule("R-SEQ", "reading with node sorting renumbers the table as read: the id re-basing step (reset_index_) does not run before sort_nodes_ on any path "
+             "(it turns the parent id `root id - 1` into the 'no parent' marker -1)", floor=1)
+    from ..cfg import CFG
+    d = ctx.repo.get_def("swcgeom.core.swc_utils.io.read_swc")
+    g = CFG(d.node.body, d.name)
+    def calls(name):
+        return [n for n in g.nodes if n.ast is not None and n.kind in ("stmt",) and any(
+            isinstance(c, ast.Call) and (dotted(c.func) or "").rsplit(".", 1)[-1] == name for c in ast.walk(n.ast))]
+    resets, sorts = calls("reset_index_"), calls("sort_nodes_")
+    bad = None
+    for r in resets:
+        reach = g.reachable(r)
+        for s_ in sorts:
+            if s_ in reach and s_ is not r:
+                bad = (r, s_)
+    if not sorts:
+        col.unresolved("R-SEQ", d.qualname, d.loc(), "re-basing never precedes the renumbering", "no call of sort_nodes_ found in read_swc", stmt="reset-before-sort")
+    elif bad is not None:
+        col.bad("R-SEQ", d.qualname, d.loc(bad[0].ast), "re-basing never precedes the renumbering",
+                f"`{norm_src(bad[0].ast)[:60]}` can be followed by `{norm_src(bad[1].ast)[:60]}`: after re-basing, a node whose parent had the id just below the root's has parent -1, "
+                f"so the table that is sorted has two roots -- reading a file whose root does not carry the smallest id fails (or loses a subtree) with sort_nodes=True", stmt="reset-before-sort", definite=True)
+    else:
+        col.ok("R-SEQ", d.qualname, d.loc(), "re-basing never precedes the renumbering", f"{len(resets)} re-basing call(s), {len(sorts)} sort call(s), never in that order", stmt="reset-before-sort")
